@@ -47,6 +47,14 @@ impl Check for C09 {
             Tier::Thorough => 1500.0,
         }
     }
+    fn nondeterminism_is_violation(&self) -> bool {
+        true
+    }
+    fn isolate(&self) -> bool {
+        // process-global state of the code under test (statics, caches) must look to every
+        // scenario the way it looks to a replay of its file: a fresh process
+        true
+    }
     fn generate(&self, rng: &mut Rng, tier: Tier, _i: u64) -> J {
         let max_r = match tier {
             Tier::Quick => 4,
@@ -100,6 +108,34 @@ impl Check for C09 {
         );
         if !reference.input_unchanged {
             viol.push(Violation::new("original-state-changed", 0, "the input state's serialisation changed while its clones were optimised (reference execution)".to_string()));
+        }
+        // 1b. repeat: the very same execution once more in this process.  If it differs the code
+        // under test is not a function of its inputs; nothing else can be compared meaningfully, and
+        // the run's hash is taken from the scenario alone so that a replay (which will see other
+        // random outputs) still reproduces the violation exactly.
+        match run_pipeline(&sc, &reference_cfg(), &Sched::Random(0), 1) {
+            Ok(mut v) => {
+                let again = v.pop().ok_or("no repeat result")?;
+                if again.json != reference.json || again.svg != reference.svg || again.error != reference.error {
+                    let mut hh = Hasher64::new();
+                    hh.bytes(j.to_string().as_bytes());
+                    out.hash = hh.finish();
+                    out.nontrivial = true;
+                    out.violate(Violation::new(
+                        "repeat-differs",
+                        0,
+                        format!(
+                            "two identical executions (1 worker, index order, same arguments) in one process wrote different output: final score {:?} then {:?}",
+                            reference.final_score_log, again.final_score_log
+                        ),
+                    ));
+                    return Ok(out);
+                }
+            }
+            Err(p) => {
+                out.violate(Violation::new("pipeline-panicked", 0, format!("repeated reference execution panicked: {}", p)));
+                return Ok(out);
+            }
         }
 
         // 2. scheduled executions
